@@ -363,7 +363,7 @@ def groupOf (cause : String) (load : Bool) : Option Wk.Group :=
   match cause with
   | "eof-sshd" | "notfifo-sshd" | "writeerr" => some ⟨⟨.returned true, 0⟩, auditBusy, procBusy, false⟩
   | "eof-audit" | "notfifo-audit" => some ⟨⟨.reading, 0⟩, ⟨.returned true, if load then cap else 0⟩, procBusy, false⟩
-  | "badline" | "writeerr-audit" => some ⟨⟨.reading, 0⟩, auditBusy, { procBusy with main := .failing }, false⟩
+  | "badline" | "writeerr-audit" | "writeerr-audit-burst" => some ⟨⟨.reading, 0⟩, auditBusy, { procBusy with main := .failing }, false⟩
   | "sigterm" | "sigint" => some ⟨⟨.reading, 0⟩, auditBusy, procBusy, true⟩
   | _ => none
 
